@@ -172,7 +172,7 @@ pub enum Operation {
     ///
     /// `FromBytes(t)` is supported for types t:
     ///  - `Native`
-    ///  - `BigUint`
+    ///  - `BigUint(n)` (requires at least 1 and at most n/8 bytes)
     ///  - `JubjubPoint` (requires exactly 32 bytes)
     ///  - `JubjubScalar`
     FromBytes(IrType),
